@@ -73,7 +73,10 @@ def work(chunk, points=None, tier='quick', quick_slice=0):
             cell = '%s/n=%d' % (method, n)
             if res['status'] != 'ok':
                 acc.case(case, nontrivial=False, outcome=res['status'])
-                return   # exceptions are C01's verdict
+                # no record at all for a configuration of the C01 domain (C01 reports the same call under its key)
+                acc.violation('C02:Derivative:no-record:%s:%s' % (res['status'], method), jc,
+                              'full_output call raised %s' % res.get('exc'), rank)
+                return
             # (b) record self-consistency, once per call
             if not res.get('_record_checked'):
                 res['_record_checked'] = True
@@ -170,7 +173,7 @@ def replay(case):
     fun = c01.spec_fun(spec)
     res = cm.run_config(fun, cfg, gen, pi, None, True)
     if res['status'] != 'ok':
-        return True, 'raised %s (C01 verdict)' % res['exc']
+        return False, 'full_output call raised %s' % res['exc']
     method, n, order = cfg
     with np.errstate(all='ignore'):
         direct = fun(np.asarray(x))
